@@ -25,6 +25,10 @@ package reflectx
 //   ScanTarget.Offered[v][i]: (ghost) field i of struct value v has been handed to the acceptor during this scan
 //@ functype FieldAcceptor
 //@ property C11
+// an acceptor may enter a by-value struct field again (Meta.scanFields does): the nesting depth of the field's type
+// bounds that; an acceptor offered any other kind of field does not come back
+//@ decreases ite(field.Type.Kind() == 25, RDepth(field.Type) + 1, 0), 2
+//@ terminates
 //@ requires [scanning] ScanTarget != nil && FieldsInv(ScanTarget)
 //@ requires [field-descriptor] field.Type != nil && RTypeOf(value) == field.Type
 //@ assigns ScanTarget.Fields, ScanTarget.Offered
@@ -39,6 +43,7 @@ package reflectx
 //@ func ForEachFieldV2
 //@ property C11
 //@ terminates
+//@ decreases RDepth(ite(t.Kind() == 22, t.Elem(), t)) + 1, 0
 //@ requires [callback] f != nil
 //@ requires [typed-value] t != nil && t == RTypeOf(v) && implies(t.Kind() == 22, t.Elem() != nil)
 //@ requires [scanning] ScanTarget != nil && FieldsInv(ScanTarget)
@@ -54,6 +59,7 @@ package reflectx
 //@ ensures [fields-only-grow] len(ScanTarget.Fields) >= len(old(ScanTarget.Fields)) && forall(k, int, implies(0 <= k && k < len(old(ScanTarget.Fields)), ScanTarget.Fields[k] == old(ScanTarget.Fields[k])))
 //@ ensures [non-struct-skipped] implies(st.Kind() != 25, result == nil && ScanTarget.Fields == old(ScanTarget.Fields))
 //@ loop 1 decreases RNumField(t) - i
+//@ loop 1 invariant [deref-type] t == st
 //@ loop 1 invariant [index] 0 <= i && i <= RNumField(t) && t.Kind() == 25 && t == RTypeOf(v) && t != nil
 //@ loop 1 invariant [fields-inv-kept] FieldsInv(ScanTarget)
 //@ loop 1 invariant [offered-so-far] v == sv && forall(j, int, implies(0 <= j && j < i, ScanTarget.Offered[sv][j]), ScanTarget.Offered[sv][j]) && forall(w, reflect.Value, forall(j, int, implies(old(ScanTarget.Offered[w][j]), ScanTarget.Offered[w][j]), ScanTarget.Offered[w][j], old(ScanTarget.Offered[w][j])))
